@@ -48,9 +48,18 @@ def execT (a : TAttrs) (ins : List (String × Tree)) : Tree :=
   | .puretest => .dir []
   | _ => BuildE2E.exec a.b ins
 
-/-- Build-time rule pre-image: BuildE2E's, plus the data LABELS (declared dependencies). -/
+def insertUniq (s : String) : List String → List String
+  | [] => [s]
+  | x :: xs => if s < x then s :: x :: xs else if s = x then x :: xs else x :: insertUniq s xs
+
+/-- `DeclaredDependencies()`: the labels among sources and data, as a sorted set. -/
+def declaredDeps (a : TAttrs) : List String :=
+  ((a.b.srcs ++ a.data).filter isLabel).foldr insertUniq []
+
+/-- Build-time rule pre-image: BuildE2E's (label, sources, output, command), plus the declared dependencies —
+    a data LABEL is a dependency (a data file is not), and one that is also a source adds nothing. -/
 def ruleSerB (a : TAttrs) : String :=
-  BuildE2E.ruleSer a.b ++ "\x02" ++ String.join (a.data.filter isLabel)
+  BuildE2E.ruleSer a.b ++ "\x02" ++ String.join (declaredDeps a)
 
 def tcmdText : TCmd → String
   | .tt => "true" | .ff => "false" | .has p => "has:" ++ p | .grep p w => "grep:" ++ w ++ ":" ++ p
@@ -96,6 +105,6 @@ def mkTestDef (a : TAttrs) : Option (TestDef String String TAttrs) :=
       data := a.data.map fun d => if isLabel d then .inr d else .inl (pkgOf a.b.label ++ "/" ++ d) }
 
 def plzTestE2E (r : TRepo String TAttrs String String Tree TAttrs String) (sel tsel : String → Bool) (fl : Flags) (st : TSt) :=
-  testAll generatedFacts ruleSerRT BuildE2E.pathSer outcomeT Build.generatedFacts BuildE2E.mvE2E execT ruleSerB r sel tsel fl st
+  testAll generatedFacts ruleSerRT BuildE2E.pathSer outcomeT Build.generatedFacts BuildE2E.mvE2E BuildE2E.rsE2E execT ruleSerB r sel tsel fl st
 
 end PlzVerif.TestE2E
